@@ -87,7 +87,21 @@ type vfxNode struct {
 
 var vfxNodeCache = map[int]vfxNode{}
 
+// vfxVariant selects a second, disjoint set of fixed values (nodes, hashes,
+// token) so that a "twin" of every fixture can be built: same shape, different
+// field values and signers. 0 is the default set.
+var vfxVariant int
+
+func vfxTwin(f func()) {
+	vfxVariant = 1
+	defer func() { vfxVariant = 0 }()
+
+	f()
+}
+
 func vfxN(i int) vfxNode {
+	i += 40 * vfxVariant
+
 	if n, ok := vfxNodeCache[i]; ok {
 		return n
 	}
@@ -111,7 +125,13 @@ func vfxNs(is ...int) []vfxNode {
 	return ns
 }
 
-func vfxH(label string) util.Hash { return valuehash.NewSHA256([]byte("verif-" + label)) }
+func vfxH(label string) util.Hash {
+	if vfxVariant != 0 {
+		return valuehash.NewSHA256([]byte(fmt.Sprintf("verif-twin%d-%s", vfxVariant, label)))
+	}
+
+	return valuehash.NewSHA256([]byte("verif-" + label))
+}
 
 func vfxHs(label string, n int) []util.Hash {
 	if n < 1 {
@@ -494,7 +514,7 @@ var vfxAllItemTypes = []base.BlockItemType{
 func vfxBlockMap(manifest base.Manifest, items []base.BlockItemType, signer *vfxNode) isaacblock.BlockMap {
 	m := isaacblock.NewBlockMap()
 	for i := range items {
-		vfxMust(m.SetItem(isaacblock.NewBlockMapItem(items[i], "checksum-of-"+string(items[i]))))
+		vfxMust(m.SetItem(isaacblock.NewBlockMapItem(items[i], fmt.Sprintf("checksum%d-of-%s", vfxVariant, items[i]))))
 	}
 
 	m.SetManifest(manifest)
@@ -530,10 +550,18 @@ func vfxSuffrageState(height base.Height, nnodes int, previous util.Hash, nops i
 
 // vfxSuffrageProof: block map of `height` signed by node 0, the suffrage state
 // of that height and its proof in a states tree of ntree nodes.
+func vfxPreviousSuffrageState(height base.Height) base.State {
+	if height == base.GenesisHeight {
+		return nil
+	}
+
+	return base.NewBaseState(height-1, isaac.SuffrageStateKey, vfxSuffrageNodesValue(base.Height(2), 3, height-1), vfxH("state-before"), vfxHs("state-op", 1))
+}
+
 func vfxSuffrageProof(height base.Height, ntree int) isaacblock.SuffrageProof {
 	var prev util.Hash
-	if height != base.GenesisHeight {
-		prev = vfxH("previous-suffrage-state")
+	if p := vfxPreviousSuffrageState(height); p != nil {
+		prev = p.Hash()
 	}
 
 	st := base.NewBaseState(height, isaac.SuffrageStateKey, vfxSuffrageNodesValue(base.Height(3), 3, height), prev, vfxHs("state-op", 2))
@@ -562,11 +590,17 @@ func vfxSuffrageProof(height base.Height, ntree int) isaacblock.SuffrageProof {
 
 // ---------------------------------------------------------------- operations
 
-var vfxToken = base.Token([]byte("verif-token"))
+func vfxTok() base.Token {
+	if vfxVariant != 0 {
+		return base.Token([]byte(fmt.Sprintf("verif-token-twin%d", vfxVariant)))
+	}
+
+	return base.Token([]byte("verif-token"))
+}
 
 func vfxCandidateOp(signers []vfxNode) isaacoperation.SuffrageCandidate {
 	c := vfxN(20)
-	op := isaacoperation.NewSuffrageCandidate(isaacoperation.NewSuffrageCandidateFact(vfxToken, c.addr, c.pub))
+	op := isaacoperation.NewSuffrageCandidate(isaacoperation.NewSuffrageCandidateFact(vfxTok(), c.addr, c.pub))
 
 	for i := range signers {
 		vfxMust(op.NodeSign(signers[i].priv, vfxNID, signers[i].addr))
@@ -576,7 +610,7 @@ func vfxCandidateOp(signers []vfxNode) isaacoperation.SuffrageCandidate {
 }
 
 func vfxJoinOp(signers []vfxNode) isaacoperation.SuffrageJoin {
-	op := isaacoperation.NewSuffrageJoin(isaacoperation.NewSuffrageJoinFact(vfxToken, vfxN(20).addr, 33))
+	op := isaacoperation.NewSuffrageJoin(isaacoperation.NewSuffrageJoinFact(vfxTok(), vfxN(20).addr, 33))
 
 	for i := range signers {
 		vfxMust(op.NodeSign(signers[i].priv, vfxNID, signers[i].addr))
@@ -586,7 +620,7 @@ func vfxJoinOp(signers []vfxNode) isaacoperation.SuffrageJoin {
 }
 
 func vfxDisjoinOp(signers []vfxNode) isaacoperation.SuffrageDisjoin {
-	op := isaacoperation.NewSuffrageDisjoin(isaacoperation.NewSuffrageDisjoinFact(vfxToken, vfxN(20).addr, 33))
+	op := isaacoperation.NewSuffrageDisjoin(isaacoperation.NewSuffrageDisjoinFact(vfxTok(), vfxN(20).addr, 33))
 
 	for i := range signers {
 		vfxMust(op.NodeSign(signers[i].priv, vfxNID, signers[i].addr))
@@ -596,7 +630,7 @@ func vfxDisjoinOp(signers []vfxNode) isaacoperation.SuffrageDisjoin {
 }
 
 func vfxNetworkPolicyOp(signers []vfxNode) isaacoperation.NetworkPolicy {
-	op := isaacoperation.NewNetworkPolicy(isaacoperation.NewNetworkPolicyFact(vfxToken, isaac.DefaultNetworkPolicy()))
+	op := isaacoperation.NewNetworkPolicy(isaacoperation.NewNetworkPolicyFact(vfxTok(), isaac.DefaultNetworkPolicy()))
 
 	for i := range signers {
 		vfxMust(op.NodeSign(signers[i].priv, vfxNID, signers[i].addr))
@@ -735,14 +769,20 @@ var (
 
 // vfxValidity: "valid" / "invalid" / "panic" of x.IsValid(networkID); "n/a" when x has no IsValid.
 func vfxValidity(x any, networkID []byte) (verdict string, detail string) {
-	v, ok := x.(util.IsValider)
-	if !ok {
+	var f func() error
+
+	switch v := x.(type) {
+	case util.IsValider:
+		f = func() error { return v.IsValid(networkID) }
+	case interface{ IsValid(base.NetworkID) error }: // isaacnetwork.NodeInfo
+		f = func() error { return v.IsValid(networkID) }
+	default:
 		return "n/a", ""
 	}
 
 	var err error
 
-	panicked, msg := vfxCatch(func() { err = v.IsValid(networkID) })
+	panicked, msg := vfxCatch(func() { err = f() })
 
 	switch {
 	case panicked:
@@ -765,4 +805,75 @@ func vfxCatch(f func()) (panicked bool, msg string) {
 	f()
 
 	return false, ""
+}
+
+// vfxShapeVoteproof builds one voteproof shape.
+//
+//	majority         : all voters sign the same plain fact (INIT / ACCEPT), which is the majority
+//	majority-special : the majority fact is a suffrage-confirm (INIT) / not-processed (ACCEPT) fact
+//	draw             : voters sign the same fact, no majority set (stuck voteproofs are always this)
+//	split            : each voter signs a different fact (also an empty-proposal / empty-operations one), no majority
+func vfxShapeVoteproof(stage base.Stage, variant, result string, nvoters, nexp int, finished bool) base.Voteproof {
+	point := base.RawPoint(33, 1)
+	expels := vfxExpels(nexp, 33)
+	efs := vfxExpelFactHashes(expels)
+
+	mk := func(i int) base.BallotFact {
+		l := fmt.Sprintf("-%d", i)
+
+		switch {
+		case stage == base.StageINIT && i == 2:
+			return isaac.NewEmptyProposalINITBallotFact(point, vfxH("block-32"), vfxH("proposal"+l))
+		case stage == base.StageINIT:
+			return isaac.NewINITBallotFact(point, vfxH("block-32"), vfxH("proposal"+l), efs)
+		case i == 2:
+			return isaac.NewEmptyOperationsACCEPTBallotFact(point, vfxH("proposal"+l))
+		default:
+			return isaac.NewACCEPTBallotFact(point, vfxH("proposal"), vfxH("block"+l), efs)
+		}
+	}
+
+	var fact base.BallotFact
+
+	switch {
+	case result == "majority-special" && stage == base.StageINIT:
+		e := efs
+		if len(e) < 1 {
+			e = vfxHs("expelfact", 1)
+		}
+
+		fact = isaac.NewSuffrageConfirmBallotFact(point, vfxH("block-32"), vfxH("proposal"), e)
+	case result == "majority-special":
+		fact = isaac.NewNotProcessedACCEPTBallotFact(point, vfxH("proposal"))
+	default:
+		fact = mk(0)
+	}
+
+	sfs := make([]base.BallotSignFact, nvoters)
+	for i := range sfs {
+		f := fact
+		if result == "split" {
+			f = mk(i)
+		}
+
+		sfs[i] = vfxSignFact(f, vfxN(i), true)
+	}
+
+	var majority base.BallotFact
+	if strings.HasPrefix(result, "majority") {
+		majority = fact
+	}
+
+	return vfxVoteproof(vfxVP{
+		stage: stage, variant: variant, point: point, majority: majority, sfs: sfs, expels: expels, nofinish: !finished,
+	})
+}
+
+
+func vfxShort(b []byte) string {
+	if len(b) > 700 {
+		return string(b[:700]) + "...(" + fmt.Sprint(len(b)) + " bytes)"
+	}
+
+	return string(b)
 }
